@@ -51,3 +51,5 @@ def run_deductive(rep):
             sx.append((SplitX(m_, k_, int_ids), can))
     verify.verify_many(rep, sx, label="S")
     lemma_cov_zero(rep)
+    from ..static import frames
+    frames.report(rep, classes=["CorrelationRemover"], conditions=("F1", "F4", "F5", "F6"))      # transform keeps no private state and never writes the fitted coefficients (F5/F6)
